@@ -90,6 +90,15 @@ def gen_special_stream(rng, k, shape):
         w = None if rng.random() < 0.5 else Fraction(rng.randint(1, 12), 4)
         sv = U.survey_from_table(rng, rowv, colv, table, weight=w)
         pair = ("cat", "cat")
+    elif shape == "big_table":
+        # more than a thousand cells (after seeded change C12-7: |z| taken IN PLACE on the cached z-score
+        # block, only for blocks above 1000 cells, when the p-values are read first)
+        nr, nc = rng.randint(34, 40), rng.randint(28, 32)
+        rowv = gen.make_cat(rng, "rowv", n_valid=nr)
+        colv = gen.make_cat(rng, "colv", n_valid=nc)
+        table = [[rng.choice([0, 1, 1, 2, 3]) for _ in range(nc)] for _ in range(nr)]
+        sv = U.survey_from_table(rng, rowv, colv, table, weight=None)
+        pair = ("cat", "cat")
     else:
         if shape == "large_survey":
             pair = rng.choice([("cat", "cat"), ("mr", "cat"), ("cat", "mr"), ("mr", "mr")])
@@ -529,6 +538,9 @@ def run(tier, seed):
     n_cases = 330 if tier == "quick" else 5000
     rng = random.Random(seed)
     cases = [gen_case(rng, k) for k in range(n_cases)]
+    rng_big = random.Random(seed + 91)
+    for j in range(2 if tier == "quick" else 12):
+        cases.append(gen_special_stream(rng_big, 2 * (n_cases + j), "big_table"))   # even k: read-order leg
     if tier == "thorough":
         cases.extend(exhaustive_2x2())
     fails, ios, coq_s, nterms = check_cases(cases, rep)
